@@ -1,6 +1,7 @@
 package tcp
 
 import (
+	tcpip "github.com/brewlin/net-protocol/protocol"
 	"sync/atomic"
 
 	"github.com/brewlin/net-protocol/pkg/buffer"
@@ -206,4 +207,29 @@ func vh_cookie_mss() {
 		}
 	}
 	vreach("cookie-mss")
+}
+
+// C04 (the window reopens): whatever receive buffer size the application sets on an
+// established connection - also one smaller than one unit of OUR window scale, and whatever
+// the PEER's scale is - an empty buffer can still be advertised as a non-zero window.
+func vh_rcvbuf_option() {
+	c := vhEP(16, 16)
+	e := c.e
+	scale := uint8(vnChoice("scale", 15))
+	peer := vnChoice("peerscale", 15)
+	rcvNxt := seqnum.Value(vnU32("rcvNxt"))
+	e.rcv = newReceiver(e, rcvNxt-1, 1<<16, scale)
+	e.snd = newSender(e, 1, rcvNxt-1, 1<<16, 1460, peer)
+	e.rcvBufUsed = 0
+	size := vnU32("size")
+	vassume(size < 1<<30)
+	err := e.SetSockOpt(tcpip.ReceiveBufferSizeOption(size))
+	vassert(err == nil, "the option is accepted")
+	e.rcvListMu.Lock()
+	zero := e.zeroReceiveWindow(scale)
+	e.rcvListMu.Unlock()
+	vassert(!zero, "with an empty buffer the window to advertise is not zero, whatever size was requested")
+	_, w := e.rcv.getSendParams()
+	vassert(w > 0, "and the receiver advertises a non-zero window")
+	vreach("rcvbuf")
 }
